@@ -116,7 +116,9 @@ class Canon:
                 if not (pos_before <= pos_after <= i + 1):
                     self.findings.append(V("P1", "start-out-of-chunk", c.op, 0, "byte %d: %s entered at %d" % (i, c.brief(), pos_before)))
                 if st.cls == "OK" and pos_after != i + 1:
-                    self.findings.append(V("P1", "ok-before-chunk-end", c.op, 0, "byte %d: %s" % (i, c.brief())))
+                    self.findings.append(V("P1", "OK-before-chunk-end", c.op, 0, "byte %d: %s chunk [%d,%d)" % (i, c.brief(), i, i + 1)))
+                    # the reference schedule itself broke the protocol: it cannot serve as a reference
+                    self.ok = False
             pos = pos_after
             last_snap, last_state = c.snap, c.state
         if len(self.eofs) == len(self.steps):
